@@ -41,6 +41,13 @@ func genC11(rt *rapid.T) C11Case {
 	// the same environment history
 	o.interference = false
 	c := C11Case{W: genWorld(rt, o), Mode: rapid.SampledFrom([]int{0, 0, 1, 1, 1, 2}).Draw(rt, "mode")}
+	if c.Mode != 1 && rapid.IntRange(0, 2).Draw(rt, "relabel") == 0 {
+		// somebody relabels a pod by hand (it stops matching the selector but keeps its owner reference): work
+		// that a live set would do by releasing it. Not in the pause mode, whose closing schedule needs the names free.
+		at := rapid.IntRange(0, len(c.W.Ops)).Draw(rt, "relabelAt")
+		op := Op{K: OpRelabelPod, A: rapid.IntRange(0, 20).Draw(rt, "relabelPod")}
+		c.W.Ops = append(c.W.Ops[:at], append([]Op{op}, c.W.Ops[at:]...)...)
+	}
 	n := len(c.W.Ops)
 	c.RaiseAt = rapid.IntRange(0, n).Draw(rt, "raiseAt")
 	c.LowerAt = rapid.IntRange(c.RaiseAt, n).Draw(rt, "lowerAt")
